@@ -67,6 +67,8 @@ struct Inner {
     evaluations: u64,
     distinct: HashSet<u64>,
     nontrivial: HashSet<u64>,
+    /// distinct non-trivial cases counted by enumeration (distinct by construction), not hashed
+    nontrivial_enum: u64,
     labels: BTreeMap<String, u64>,
     samples: Vec<J>,
     sample_labels: HashSet<String>,
@@ -190,6 +192,13 @@ impl Ctx {
         for h in distinct_nontrivial_hashes {
             g.nontrivial.insert(h);
         }
+    }
+
+    /// Count cases of an enumeration whose elements are distinct by construction.
+    pub fn bulk_n(&self, evaluations: u64, distinct_nontrivial: u64) {
+        let mut g = self.inner.lock().unwrap();
+        g.evaluations += evaluations;
+        g.nontrivial_enum += distinct_nontrivial;
     }
 
     pub fn label(&self, l: &str, n: u64) {
@@ -330,7 +339,10 @@ impl Ctx {
         let mut coverage = serde_json::Map::new();
         coverage.insert("evaluations".into(), json!(g.evaluations));
         coverage.insert("distinct".into(), json!(g.distinct.len()));
-        coverage.insert("distinct_nontrivial".into(), json!(g.nontrivial.len()));
+        coverage.insert(
+            "distinct_nontrivial".into(),
+            json!(g.nontrivial.len() as u64 + g.nontrivial_enum),
+        );
         coverage.insert("rule".into(), json!(g.rules.join(" | ")));
         coverage.insert("samples".into(), J::Array(g.samples.clone()));
         coverage.insert("labels".into(), json!(g.labels));
@@ -372,7 +384,7 @@ impl Ctx {
             self.id,
             self.tier.name(),
             g.evaluations,
-            g.nontrivial.len(),
+            g.nontrivial.len() as u64 + g.nontrivial_enum,
             g.known_hits.len(),
             g.violations.len(),
             wall
